@@ -37,6 +37,15 @@ type Program struct {
 	funcDecls map[*types.Func]*ast.FuncDecl
 	declPkg   map[*ast.FuncDecl]*packages.Package
 	hidden    map[*ast.FuncDecl]bool // helpers that were inlined into all of their callers
+	opt       LoadOptions
+	mutated   bool // some syntax tree was rewritten by the inliner
+	overlay   map[string][]byte
+
+	// Renamed lists "new->old" for declarations that were renamed back to their inventory name;
+	// Substituted the hoisted locals that were replaced by their defining expression.
+	Renamed     []string
+	Substituted []string
+	Notes       []string
 
 	// InlinedHelpers lists the functions (absent from the baseline inventory) that were inlined.
 	InlinedHelpers []string
@@ -60,20 +69,50 @@ type LoadOptions struct {
 	Tags   string
 	GOARCH string
 	Deep   bool // load syntax of dependencies too (whole-program SSA)
-	// Baseline is the function inventory of the pinned tree; functions outside it are inlined
-	// into their callers before analysis (nil: no inlining).
-	Baseline map[string]bool
+	// Baseline is the declaration inventory of the pinned tree (see baseline.go); nil: the tree
+	// is analysed as written, without normalisation.
+	Baseline *Baseline
 }
 
 // Load type-checks every package of the repository. Any load or type error is returned.
 func Load(repo string, opt LoadOptions) (*Program, error) {
+	p, err := load(repo, opt, token.NewFileSet(), nil)
+	if err != nil || opt.Baseline == nil {
+		return p, err
+	}
+	// renames: types, constants and variables first (function signatures and field owners mention type names)
+	var renamed []string
+	for _, kinds := range [][]string{{"type", "const", "var"}, {"func", "field"}} {
+		ren := p.detectRenames(opt.Baseline, kinds...)
+		if len(ren) == 0 {
+			continue
+		}
+		q, err := load(repo, opt, token.NewFileSet(), p.renameOverlay(ren))
+		if err != nil {
+			// e.g. the old name is shadowed somewhere: analyse the tree as written
+			p.Notes = append(p.Notes, fmt.Sprintf("rename normalisation skipped (%v)", err))
+			break
+		}
+		for obj, old := range ren {
+			renamed = append(renamed, obj.Name()+"->"+old)
+		}
+		p = q
+	}
+	sort.Strings(renamed)
+	p.Renamed = renamed
+	p.Normalise(opt.Baseline)
+	p.InlineNewHelpers(opt.Baseline)
+	return p, nil
+}
+
+func load(repo string, opt LoadOptions, fset *token.FileSet, overlay map[string][]byte) (*Program, error) {
 	mode := packages.NeedName | packages.NeedFiles | packages.NeedCompiledGoFiles | packages.NeedImports |
 		packages.NeedTypes | packages.NeedTypesSizes | packages.NeedSyntax | packages.NeedTypesInfo | packages.NeedDeps | packages.NeedModule
 	env := append(os.Environ(), "GOFLAGS=-mod=mod", "GOPROXY=off", "GOSUMDB=off", "GOTOOLCHAIN=local", "GOWORK=off")
 	if opt.GOARCH != "" {
 		env = append(env, "GOARCH="+opt.GOARCH)
 	}
-	cfg := &packages.Config{Mode: mode, Dir: repo, Env: env, Tests: false, Fset: token.NewFileSet()}
+	cfg := &packages.Config{Mode: mode, Dir: repo, Env: env, Tests: false, Fset: fset, Overlay: overlay}
 	if opt.Tags != "" {
 		cfg.BuildFlags = []string{"-tags=" + opt.Tags}
 	}
@@ -84,7 +123,7 @@ func Load(repo string, opt LoadOptions) (*Program, error) {
 	p := &Program{
 		Repo: repo, Fset: cfg.Fset, ByPath: map[string]*packages.Package{},
 		funcDecls: map[*types.Func]*ast.FuncDecl{}, declPkg: map[*ast.FuncDecl]*packages.Package{},
-		hidden: map[*ast.FuncDecl]bool{},
+		hidden: map[*ast.FuncDecl]bool{}, opt: opt, overlay: overlay,
 	}
 	p.Config = fmt.Sprintf("GOARCH=%s tags=%q", firstNonEmpty(opt.GOARCH, "default"), opt.Tags)
 	var errs []string
@@ -130,9 +169,6 @@ func Load(repo string, opt LoadOptions) (*Program, error) {
 				}
 			}
 		}
-	}
-	if opt.Baseline != nil {
-		p.InlineNewHelpers(opt.Baseline)
 	}
 	return p, nil
 }
@@ -276,10 +312,22 @@ func FuncName(fd *ast.FuncDecl) string {
 }
 
 // SSA builds (once) SSA form for the first-party packages. Dependencies have no bodies.
+// When helpers were inlined the syntax trees of p.All are no longer what the type checker saw, so
+// the packages are loaded a second time (same FileSet, no inlining) and SSA is built from those:
+// types of the SSA program are then distinct from p's, look names up in the ssa.Package.
 func (p *Program) SSA() (*ssa.Program, map[string]*ssa.Package) {
 	p.ssaOnce.Do(func() {
 		initial := make([]*packages.Package, len(p.All))
 		copy(initial, p.All)
+		if p.mutated {
+			opt := p.opt
+			opt.Baseline = nil
+			q, err := load(p.Repo, opt, p.Fset, p.overlay)
+			if err != nil {
+				return
+			}
+			copy(initial, q.All)
+		}
 		prog, pkgs := ssautil.Packages(initial, ssa.BuilderMode(0))
 		prog.Build()
 		p.SSAProg = prog
